@@ -95,11 +95,13 @@ def judgeDefRes (prop : String) (cid : String) (o : Op) (res : Except ErrCode Gr
       -- the same flags from the step-for-step transcription of the three analysis loops
       -- (Model/AnalysisC.lean; `emptyAccessDerives_eq`, `loopC_eq`)
       let b := fun (x : Bool) => if x then 1 else 0
-      let rows := AC.flagRows g
+      -- (list-based transcription: small grammars only)
+      let rows := if g.nN + g.nT ≤ 40 && g.rules.length ≤ 60 then AC.flagRows g else []
       let expSymsC := strSet ((List.range g.nN).map fun A =>
         let r := rows.getD A (false, false, false, false)
         s!"{asciiName (g.ntNames.getD A "?")} {A} e={b r.1} a={b r.2.1} d={b r.2.2.1} l={b r.2.2.2}")
-      out := out.v cid o.n prop "D" (expSymsC == gotSyms) s!"flags of the step model of the analysis loops model={expSymsC} impl={gotSyms}"
+      if !rows.isEmpty then
+        out := out.v cid o.n prop "D" (expSymsC == gotSyms) s!"flags of the step model of the analysis loops model={expSymsC} impl={gotSyms}"
       let expTerms := strSet ((List.range g.nT).map fun a => s!"{asciiName (g.termNames.getD a "?")} {g.termCodes.getD a 0} {a}")
       let gotTerms := strSet ((o.get "sym").filterMap fun ws => match ws with
         | "T" :: rest => some (" ".intercalate rest) | _ => none)
